@@ -343,6 +343,9 @@ func (c *Clients) do(cl int, kind string, inc *Inc) *Call {
 			defer func() { w.or.userRestoring[inc.node.idx]-- }()
 			return r.Restore(meta, bytes.NewReader(body), timeout)
 		}
+	case "bootstrap":
+		conf := w.or.initCfg.Clone()
+		run = func() error { return r.BootstrapCluster(conf).Error() }
 	case "shutdown":
 		run = func() error {
 			inc.shutdown = true
